@@ -9,6 +9,8 @@ import PFV.SimBytes
 import PFV.Lex
 import PFV.Ref
 import PFV.Spec
+import PFV.Gen
+import PFV.Compat
 namespace PFV
 namespace Driver
 
@@ -190,11 +192,25 @@ structure Snap where
   memoDig : String
   outLen : Nat
   pe : Bool
+  full : Option (List Kind) := none     -- the implementation's stack kinds (top first) when short enough
+  keysDig : String := ""
 
 def parseSnap (parts : List String) : Option Snap :=
   match parts with
   | [a, b, c, d] => some { stackDig := a, memoDig := b, outLen := c.toNat?.getD 0, pe := d == "1" }
+  | [a, b, c, d, f, k] =>
+    some { stackDig := a, memoDig := b, outLen := c.toNat?.getD 0, pe := d == "1",
+           full := if f == "-" then none else some (stackOfCodes (if f == "." then "-" else f)), keysDig := k }
   | _ => none
+
+/-- C17 evaluated directly between the implementation's simulated state and the reference
+machine (independent of the model): equal depth, MARKs in the same slots, compatible kinds,
+same memo index set -/
+def relOk (impl : List Kind) (ref : List Ref.RKind) : Bool :=
+  impl.length == ref.length && (impl.zip ref).all (fun (k, r) => compat k r)
+
+def refKeysDigest (m : Ref.RMemo) : String :=
+  hex16 (fnv (((m.map (·.1)).mergeSort (fun a b => a ≤ b)).flatMap le8))
 
 def snapMatches (s : State) (sn : Snap) : Bool :=
   stackDigest s.stack == sn.stackDig && memoDigest s.memo == sn.memoDig && s.protoEmitted == sn.pe
@@ -240,17 +256,28 @@ def traceLine (toks : List String) : String :=
           if !tOk then fail s!"target {target} outside [{c.minOps},{c.maxOps})"
           else if bodyEnd != target then fail s!"body emitted {bodyEnd} opcodes for target {target}"
           else
-            let rec go (s : State) (prev : Nat) (idx : Nat) (l : List String) (tail : List Op)
+            let rec go (s : State) (rr : Ref.RState) (prev : Nat) (idx : Nat) (l : List String) (tail : List Op)
                 (sBody : State) : Except String (State × Nat × List Op × State) :=
               match l with
               | [] => .ok (s, prev, tail, sBody)
               | stp :: rest =>
                 match stp.splitOn "/" with
-                | [opHex, _argHex, a, b, cc, d] =>
-                  match parseSnap [a, b, cc, d] with
+                | [opHex, _argHex, a, b, cc, d, f, k] =>
+                  match parseSnap [a, b, cc, d, f, k] with
                   | none => .error s!"step {idx}: bad snapshot"
                   | some sn =>
-                    if !snapMatches s sn then
+                    let direct : Option String :=
+                      if c.unsafeMut then none else
+                      match sn.full with
+                      | some st =>
+                        if !relOk st rr.stack then
+                          some s!"C17-direct step {idx}: before opcode {opHex} the implementation's simulated stack [{stackStr st}] (bottom first) is not compatible with the reference stack [{" ".intercalate (rr.stack.reverse.map Ref.RKind.code)}]"
+                        else if sn.keysDig != refKeysDigest rr.memo then
+                          some s!"C17-direct step {idx}: memo index sets differ (reference has {rr.memo.length} keys)"
+                        else none
+                      | none => none
+                    if let some w := direct then .error w
+                    else if !snapMatches s sn then
                       .error s!"step {idx}: state before {opHex} differs: model stack={stackDigest s.stack} memo={memoDigest s.memo} top={stackStr (s.stack.take 6)} impl stack={sn.stackDig} memo={sn.memoDig}"
                     else
                       let delta := dropTake out prev sn.outLen
@@ -261,14 +288,17 @@ def traceLine (toks : List String) : String :=
                         else if hex2 (Gen.asU8 ins.op) != opHex then .error s!"step {idx}: traced opcode {opHex} but bytes are {ins.op.name}"
                         else
                           let sBody := if idx == bodyEnd then s else sBody
+                          let rr' := match Ref.step rr ins with
+                            | .ok (r', _) => r'
+                            | .error _ => rr
                           if idx < bodyEnd then
                             if !(Gen.table c.version).contains ins.op then .error s!"step {idx}: {ins.op.name} not in the protocol table"
                             else if !canEmit c s ins.op then .error s!"step {idx}: {ins.op.name} emitted but the model's guard is false; top={stackStr (s.stack.take 6)}"
                             else if !c.unsafeMut && !argOk s ins.op ins.arg then .error s!"step {idx}: {ins.op.name} argument {reprStr ins.arg} not admissible (memo size {s.memo.length})"
-                            else go (process c.version s ins.op ins.arg) sn.outLen (idx + 1) rest tail sBody
-                          else go (process c.version s ins.op ins.arg) sn.outLen (idx + 1) rest (tail ++ [ins.op]) sBody
+                            else go (process c.version s ins.op ins.arg) rr' sn.outLen (idx + 1) rest tail sBody
+                          else go (process c.version s ins.op ins.arg) rr' sn.outLen (idx + 1) rest (tail ++ [ins.op]) sBody
                 | _ => .error s!"step {idx}: malformed"
-            match go s0 hdr 0 steps [] s0 with
+            match go s0 {} hdr 0 steps [] s0 with
             | .error e => fail e
             | .ok (sf, prev, tail, sBody) =>
               let sBody := if steps.length == bodyEnd then sf else sBody
@@ -279,7 +309,8 @@ def traceLine (toks : List String) : String :=
               else if tail.length > 2 * target + 2 then fail s!"tail {tail.length} > 2T+2"
               else
                 match (kvD toks "final" "-").splitOn "/" with
-                | [a, b, _, d, stk, mem] =>
+                | [a, b, _, d, _, _, stk0, mem] =>
+                  let stk := if stk0 == "." then "-" else stk0
                   if stackDigest sf.stack != a || memoDigest sf.memo != b || (d == "1") != sf.protoEmitted then fail "final state digest differs"
                   else if (if stackStr sf.stack == "" then "-" else stackStr sf.stack) != (if stk == "" then "-" else stk) then fail s!"final stack: model={stackStr sf.stack} impl={stk}"
                   else if memoFull sf.memo != mem then fail "final memo differs"
@@ -287,7 +318,281 @@ def traceLine (toks : List String) : String :=
                 | _ => fail "bad final record"
     | _, _ => fail "missing target/bodyend (generation aborted?)"
 
-def handle (line : String) : Option String :=
+/-! ### S3 gen-exact, S4 mutators, S5 entropy adapters -/
+
+def parseMods (content : String) : List (List UInt8 × List UInt8) :=
+  let lines := (content.splitOn "\n").map (fun l => if l.endsWith "\r" then String.ofList l.toList.dropLast else l)
+  let lines := match lines.getLast? with
+    | some "" => lines.dropLast
+    | _ => lines
+  lines.map (fun l =>
+    match l.splitOn "." with
+    | [] => ("builtins".toUTF8.toList, "object".toUTF8.toList)
+    | [m] => (m.toUTF8.toList, "object".toUTF8.toList)
+    | m :: rest => (m.toUTF8.toList, (".".intercalate rest).toUTF8.toList))
+
+def nanText : List UInt8 := "NaN".toUTF8.toList
+def fmtOf (table : List (UInt64 × List UInt8)) (b : UInt64) : List UInt8 :=
+  if G.f64IsNaN b then nanText
+  else if b == 0x7FF0000000000000 then "inf".toUTF8.toList
+  else if b == 0xFFF0000000000000 then "-inf".toUTF8.toList
+  else match table.find? (fun p => p.1 == b) with
+    | some p => p.2
+    | none => "?unknown-float?".toUTF8.toList
+
+def hexToUInt64 (s : String) : UInt64 :=
+  UInt64.ofNat (s.toList.foldl (fun acc c => acc * 16 + (hexVal? c).getD 0) 0)
+
+def fullCfg (toks : List String) : Cfg :=
+  let c := cfgOf toks
+  { c with mutators := G.mutsOfMask (kvNat toks "mask") c.unsafeMut,
+           rateBits := G.clampRate (hexToUInt64 (kvD toks "rate" "3fb999999999999a")) }
+
+def firstDiff : List UInt8 → List UInt8 → Nat → Option Nat
+  | [], [], _ => none
+  | a :: as, b :: bs, i => if a == b then firstDiff as bs (i + 1) else some i
+  | _, _, i => some i
+
+def genLine (mods : List (List UInt8 × List UInt8)) (toks : List String) : String :=
+  let id := kvD toks "id" "?"
+  let c := fullCfg toks
+  let mode := kvD toks "mode" "?"
+  if !mode.startsWith "arb:" then s!"gen id={id} skipped=not-arbitrary-mode"
+  else
+    let input := unhex (mode.drop 4).toString
+    let ftab := ((kvD toks "floats" "-").splitOn ",").filterMap (fun e =>
+      match e.splitOn ":" with
+      | [b, t] => some (hexToUInt64 b, unhex t)
+      | _ => none)
+    let X : G.Ext := { mods := mods, fmt := fmtOf ftab }
+    let res := kvD toks "result" "?"
+    match G.generate Arb.E X c input with
+    | .error e =>
+      if res.startsWith "ok:" then s!"gen id={id} FAIL model_panics:{san (reprStr e)}:impl_ok"
+      else s!"gen id={id} ok both_fail model={san (reprStr e)} impl={san res}"
+    | .ok (r, rest) =>
+      if !res.startsWith "ok:" then s!"gen id={id} FAIL model_ok_len={r.bytes.length}:impl={san res}"
+      else
+        let out := unhex (res.drop 3).toString
+        match firstDiff r.bytes out 0 with
+        | none =>
+          let tOk := c.minOps ≤ r.target && (if c.maxOps > c.minOps then r.target < c.maxOps else r.target == c.minOps)
+          s!"gen id={id} ok len={out.length} target={r.target} body={r.bodyLen} n={r.instrs.length} framed={if r.framed then 1 else 0} left={rest.length} tbounds={if tOk then 1 else 0}"
+        | some i =>
+          s!"gen id={id} FAIL first_diff_at={i}:model_len={r.bytes.length}:impl_len={out.length}:model={hexOf ((r.bytes.drop (i - min i 4)).take 16)}:impl={hexOf ((out.drop (i - min i 4)).take 16)}"
+
+def entOf (s : String) : Option (List UInt8) :=
+  if s.startsWith "arb:" then some (unhex (s.drop 4).toString) else none
+
+def srcLine (toks : List String) : String :=
+  let m := kvD toks "method" "?"
+  let a := kvNat toks "a"
+  let b := kvNat toks "b"
+  let res := kvD toks "result" "?"
+  let left := kvD toks "left" "?"
+  let fail (w : String) := s!"src FAIL method={m} a={a} b={b} ent={kvD toks "ent" "?"} impl={res} {san w}"
+  -- the contract, for both sources
+  let contract : Option String :=
+    match m with
+    | "choose_index" => if (a == 0 && res != "0") then some "choose_index(0) != 0" else
+        (if a > 0 && res.toNat?.getD a ≥ a then some "choose_index out of range" else none)
+    | "gen_range" => let r := res.toNat?.getD 0
+        if a ≥ b then (if r != a then some "degenerate range must return a" else none)
+        else (if r < a || r ≥ b then some "gen_range out of [a,b)" else none)
+    | "gen_ascii_char" => let r := res.toNat?.getD 0
+        if r < 32 || r > 126 || !Gen.asciiChars.contains (UInt8.ofNat r) then some "not a printable ASCII_CHARS member" else none
+    | "gen_bytes" => if (unhex res).length != a then some "gen_bytes length" else none
+    | _ => none
+  match contract with
+  | some w => fail ("contract:" ++ w)
+  | none =>
+    match entOf (kvD toks "ent" "?") with
+    | none => "src ok rand"
+    | some bs =>
+      let (mr, rest) : String × List UInt8 := match m with
+        | "choose_index" => let (v, r) := Arb.E.chooseIndex bs a; (toString v, r)
+        | "gen_bool" => let (v, r) := Arb.E.genBool bs; ((if v then "1" else "0"), r)
+        | "gen_u8" => let (v, r) := Arb.E.genU8 bs; (toString v, r)
+        | "gen_u16" => let (v, r) := Arb.E.genU16 bs; (toString v, r)
+        | "gen_u32" => let (v, r) := Arb.E.genU32 bs; (toString v, r)
+        | "gen_i32" => let (v, r) := Arb.E.genI32 bs; (toString v, r)
+        | "gen_i64" => let (v, r) := Arb.E.genI64 bs; (toString v, r)
+        | "gen_f64" => let (v, r) := Arb.E.genF64 bs; (hex16 v, r)
+        | "gen_range" => let (v, r) := Arb.E.genRange bs a b; (toString v, r)
+        | "gen_bytes" => let (v, r) := Arb.E.genBytes bs a; ((if v.isEmpty then "-" else hexOf v), r)
+        | _ => let (v, r) := Arb.E.genAsciiChar bs; (toString v.toNat, r)
+      if mr == res && toString rest.length == left then "src ok arb"
+      else fail s!"model={mr}:left={rest.length}:impl_left={left}"
+
+/-- UTF-8 decoding of well-formed input (the harness only sends `String`s) -/
+def utf8Decode : List UInt8 → List Char
+  | [] => []
+  | b :: rest =>
+    let v := b.toNat
+    if v < 0x80 then Char.ofNat v :: utf8Decode rest
+    else if v < 0xe0 then
+      match rest with
+      | c :: r => Char.ofNat ((v % 32) * 64 + c.toNat % 64) :: utf8Decode r
+      | _ => []
+    else if v < 0xf0 then
+      match rest with
+      | c :: d :: r => Char.ofNat ((v % 16) * 4096 + (c.toNat % 64) * 64 + d.toNat % 64) :: utf8Decode r
+      | _ => []
+    else
+      match rest with
+      | c :: d :: e :: r =>
+        Char.ofNat ((v % 8) * 262144 + (c.toNat % 64) * 4096 + (d.toNat % 64) * 64 + e.toNat % 64) :: utf8Decode r
+      | _ => []
+termination_by l => l.length
+decreasing_by all_goals simp_wf; all_goals omega
+
+def mutOfName (n : String) (u : Bool) : Option Mut :=
+  match n with
+  | "bitflip" => some .bitflip | "boundary" => some .boundary | "offbyone" => some .offbyone
+  | "stringlen" => some .stringlen | "character" => some .character
+  | "memoindex" => some (.memoindex u) | "typeconfusion" => some (.typeconfusion u)
+  | _ => none
+
+def optStr {α} (f : α → String) : Option α → String
+  | none => "none"
+  | some x => "some:" ++ f x
+
+def hexOrDash (b : List UInt8) : String := if b.isEmpty then "-" else hexOf b
+
+def popCount (n : Nat) : Nat := (List.range 64).foldl (fun acc i => acc + (n >>> i) % 2) 0
+
+/-- the C16 contract of one mutator call, evaluated on the implementation's own result -/
+def mutContract (kind method value result : String) (unsafeMode : Bool) : Option String :=
+  if result == "none" then none else
+  let r := (result.drop 5).toString
+  match kind, method with
+  | "bitflip", "int" | "bitflip", "long" =>
+    let bits := if method == "int" then 32 else 64
+    let a := Mutators.toU bits (value.toInt?.getD 0); let b := Mutators.toU bits (r.toInt?.getD 0)
+    if popCount (a ^^^ b) != 1 then some "bit-flip must change exactly one bit" else none
+  | "boundary", "int" => if Gen.boundInt.contains (r.toInt?.getD 7) then none else some "not a listed boundary"
+  | "boundary", "long" => if Gen.boundLong.contains (r.toInt?.getD 7) then none else some "not a listed boundary"
+  | "boundary", "float" =>
+    let b := hexToUInt64 r
+    if Gen.boundFloat.contains b || (G.f64IsNaN b && Gen.boundFloat.any G.f64IsNaN) then none else some "not a listed boundary"
+  | "offbyone", "int" | "offbyone", "long" =>
+    let bits := if method == "int" then 32 else 64
+    let v := value.toInt?.getD 0; let w := r.toInt?.getD 0
+    if w == Mutators.wrap bits (v + 1) || w == Mutators.wrap bits (v - 1) then none else some "off-by-one must be ±1 with wrap-around"
+  | "offbyone", "memo" =>
+    let v := value.toNat?.getD 0; let w := r.toNat?.getD 0
+    if w == Mutators.satAdd1 v || w == Mutators.satSub1 v then none else some "memo off-by-one must be ±1 saturating"
+  | "memoindex", "memo" =>
+    let v := value.toNat?.getD 0; let w := r.toNat?.getD 0
+    if unsafeMode then (if w < 1000 then none else some "unsafe memo index must be < 1000")
+    else (if w == v || w == Mutators.satAdd1 v || w == Mutators.satSub1 v then none else some "safe memo index moves by at most one")
+  | "stringlen", "string" | "stringlen", "bytes" =>
+    let isStr := method == "string"
+    let v := unhex value; let w := unhex r
+    let vItems := if isStr then (utf8Decode v).length else v.length
+    let wItems := if isStr then (utf8Decode w).length else w.length
+    let isPrefix := w.length ≤ v.length && v.take w.length == w
+    let isDouble := w == v ++ v
+    let isExt := w.take v.length == v && wItems ≥ vItems + 1 && wItems ≤ vItems + 9 &&
+      (!isStr || (w.drop v.length).all (fun b => 0x61 ≤ b && b ≤ 0x7a))
+    if isPrefix || isDouble || isExt then none else some "string-length: not a prefix, not +1..9 items, not doubled"
+  | "character", "string" =>
+    let v := utf8Decode (unhex value); let w := utf8Decode (unhex r)
+    let diffs := (v.zip w).filter (fun (a, b) => a != b)
+    if v.length != w.length then some "character: length changed"
+    else if diffs.length > 1 then some "character: more than one position changed"
+    else if diffs.any (fun (_, b) => b.toNat < 33 || b.toNat > 126) then some "character: replacement not printable"
+    else none
+  | "character", "bytes" =>
+    let v := unhex value; let w := unhex r
+    if v.length != w.length then some "character: length changed"
+    else if ((v.zip w).filter (fun (a, b) => a != b)).length > 1 then some "character: more than one position changed"
+    else none
+  | _, _ => some "this mutator must not fire for this value kind"
+
+def mutLine (toks : List String) : String :=
+  let kind := kvD toks "kind" "?"
+  let u := kvBool toks "unsafe"
+  let method := kvD toks "method" "?"
+  let value := kvD toks "value" "?"
+  let rate := hexToUInt64 (kvD toks "rate" "0")
+  let res := kvD toks "result" "?"
+  let left := kvD toks "left" "?"
+  let fail (w : String) := s!"mut FAIL kind={kind} unsafe={if u then 1 else 0} method={method} value={value} rate={kvD toks "rate" "?"} ent={kvD toks "ent" "?"} impl={res} {san w}"
+  if res.startsWith "panic" then fail "panic" else
+  match mutOfName kind u with
+  | none => fail "unknown mutator"
+  | some m =>
+    -- C16 contract on the implementation's result (both entropy sources)
+    let cviol : Option String :=
+      if method == "post" then
+        (match value.splitOn "+", res.splitOn ":" with
+         | [pre, delta], [chg, outHex] =>
+           let preB := unhex pre; let deltaB := unhex delta; let out := unhex outHex
+           if chg == "same" then (if out == preB ++ deltaB then none else some "post_process reported no change but bytes differ")
+           else if !u then some "type confusion fired in safe mode"
+           else if kind != "typeconfusion" then some "only type confusion may rewrite"
+           else if out.take preB.length != preB then some "rewrite touched earlier bytes"
+           else match Lex.lexOne (out.drop preB.length) with
+             | .ok (ins, []) =>
+               (match deltaB.head?.bind Gen.opcodeToType, Gen.opcodeToType (Gen.asU8 ins.op) with
+                | some t0, some t1 => if t0 == t1 then some "replacement pushes the same type" else none
+                | none, _ => some "a non-value-pushing opcode was rewritten"
+                | _, none => some "replacement is not a value-pushing opcode")
+             | _ => some "replacement is not exactly one complete instruction"
+         | _, _ => some "malformed post line")
+      else mutContract kind method value res u
+    -- C15 at the extremes
+    let applicable : Bool := match kind, method with
+      | "bitflip", "int" | "bitflip", "long" | "boundary", "int" | "boundary", "long" | "boundary", "float"
+      | "offbyone", "int" | "offbyone", "long" | "offbyone", "memo" | "stringlen", "string"
+      | "stringlen", "bytes" | "memoindex", "memo" => true
+      | "character", "string" | "character", "bytes" => value != "-"
+      | _, _ => false
+    let fired := if method == "post" then res.startsWith "changed" else res != "none"
+    let c15 : Option String :=
+      if rate == 0 && fired then some "C15:fired_at_rate_0"
+      else if rate == 0x3FF0000000000000 && applicable && !fired then some "C15:did_not_fire_at_rate_1"
+      else none
+    match cviol, c15 with
+    | some w, _ => fail ("C16:" ++ w)
+    | _, some w => fail w
+    | none, none =>
+      match entOf (kvD toks "ent" "?") with
+      | none => "mut ok rand"
+      | some bs =>
+        -- exact comparison with the model under the Unstructured port
+        let modelRes : String × Nat :=
+          match method with
+          | "int" => (match Mutators.mutateInt Arb.E 32 Gen.boundInt m (value.toInt?.getD 0) bs rate with
+              | .ok (r, rest) => (optStr toString r, rest.length) | .error e => ("panic:" ++ reprStr e, 0))
+          | "long" => (match Mutators.mutateInt Arb.E 64 Gen.boundLong m (value.toInt?.getD 0) bs rate with
+              | .ok (r, rest) => (optStr toString r, rest.length) | .error e => ("panic:" ++ reprStr e, 0))
+          | "float" => (match Mutators.mutateFloat Arb.E m (hexToUInt64 value) bs rate with
+              | .ok (r, rest) => (optStr hex16 r, rest.length) | .error e => ("panic:" ++ reprStr e, 0))
+          | "string" => (match Mutators.mutateString Arb.E m (utf8Decode (unhex value)) bs rate with
+              | .ok (r, rest) => (optStr (fun cs => hexOrDash (G.utf8 cs)) r, rest.length) | .error e => ("panic:" ++ reprStr e, 0))
+          | "bytes" => (match Mutators.mutateBytes Arb.E m (unhex value) bs rate with
+              | .ok (r, rest) => (optStr hexOrDash r, rest.length) | .error e => ("panic:" ++ reprStr e, 0))
+          | "memo" => (match Mutators.mutateMemo Arb.E m (value.toNat?.getD 0) bs rate with
+              | .ok (r, rest) => (optStr toString r, rest.length) | .error e => ("panic:" ++ reprStr e, 0))
+          | _ =>
+            (match value.splitOn "+" with
+             | [pre, delta] =>
+               let preB := unhex pre; let deltaB := unhex delta
+               (match m with
+                | .typeconfusion uu =>
+                  (match Mutators.typeConfusion Arb.E uu deltaB.head? bs rate with
+                   | .ok (some ins, rest) => ("changed:" ++ hexOrDash (preB ++ Enc.encode ins), rest.length)
+                   | .ok (none, rest) => ("same:" ++ hexOrDash (preB ++ deltaB), rest.length)
+                   | .error e => ("panic:" ++ reprStr e, 0))
+                | _ => ("same:" ++ hexOrDash (preB ++ deltaB), bs.length))
+             | _ => ("?", 0))
+        let isNaNRes (x : String) : Bool := x.startsWith "some:" && method == "float" && G.f64IsNaN (hexToUInt64 (x.drop 5).toString)
+        if (modelRes.1 == res || (isNaNRes modelRes.1 && isNaNRes res)) && toString modelRes.2 == left then "mut ok arb"
+        else fail s!"model={modelRes.1}:left={modelRes.2}:impl_left={left}"
+
+def handle (mods : List (List UInt8 × List UInt8)) (line : String) : Option String :=
   let l := line.trimAscii.toString
   if l.isEmpty then none else
   let toks := l.splitOn " "
@@ -295,21 +600,30 @@ def handle (line : String) : Option String :=
   | some "oracle" => some (oracleLine toks)
   | some "probe" => some (probeLine toks)
   | some "trace" => some (traceLine toks)
+  | some "gen" => some (genLine mods toks)
+  | some "src" => some (srcLine toks)
+  | some "mut" => some (mutLine toks)
   | some other => some s!"unknown request {other}"
   | none => none
 
-partial def loop (h : IO.FS.Stream) (out : IO.FS.Stream) : IO Unit := do
+partial def loop (mods : List (List UInt8 × List UInt8)) (h : IO.FS.Stream) (out : IO.FS.Stream) : IO Unit := do
   let line ← h.getLine
   if line.isEmpty then return ()
-  match handle line with
+  match handle mods line with
   | some r => out.putStrLn r
   | none => pure ()
-  loop h out
+  loop mods h out
 
 end Driver
 end PFV
 
-def main : IO Unit := do
+def main (args : List String) : IO Unit := do
   let stdin ← IO.getStdin
   let stdout ← IO.getStdout
-  PFV.Driver.loop stdin stdout
+  -- optional argument: path of /repo/data/stdlib_complete.txt (needed by `gen` requests only)
+  let mods ← match args with
+    | p :: _ => do
+      let content ← IO.FS.readFile p
+      pure (PFV.Driver.parseMods content)
+    | [] => pure []
+  PFV.Driver.loop mods stdin stdout
